@@ -428,3 +428,28 @@ def stale_applications(h: History) -> list[dict[str, Any]]:
             out.append({"handler": handler, "kind": k, "old": r["old"], "new": r["new"], "seq": r["seq"],
                         "stage": h.key_of_stage(sid)})
     return out
+
+
+def plan_lost_after_claim(h: History) -> list[dict[str, Any]]:
+    """StartStage handlings that claimed a stage (durable NOT_STARTED->RUNNING) and were acknowledged, but
+    never committed the plan (no second stage write / no queued work under the same message): the stage is
+    left RUNNING with nothing scheduled.  Happens when the plan commit loses an optimistic-lock race to a
+    concurrent writer of the same stage row and the handler swallows the ConcurrencyError."""
+    out = []
+    claims: dict[str, dict[str, Any]] = {}
+    follow: dict[str, int] = {}
+    acked: set[str] = set()
+    for r in h.audit:
+        hd, mid = ctx_handler(r["ctx"]), ctx_msgid(r["ctx"])
+        if r["kind"] == "q_del":
+            acked.add(r["row_id"])
+        if hd != "StartStage" or not mid:
+            continue
+        if r["kind"] == "stage" and r["old"] == "NOT_STARTED" and r["new"] == "RUNNING":
+            claims[mid] = r
+        elif mid in claims and (r["kind"] in ("q_ins", "pm_ins") or (r["kind"] == "stage" and r["row_id"] == claims[mid]["row_id"])):
+            follow[mid] = follow.get(mid, 0) + 1
+    for mid, r in claims.items():
+        if follow.get(mid, 0) == 0 and mid in acked:
+            out.append({"stage": h.key_of_stage(r["row_id"]), "msg": mid, "seq": r["seq"]})
+    return out
